@@ -39,6 +39,7 @@ PROGRAMS = [
 
 D15 = ['n', 'p', 'r', 's', 'b', 'b 0', 'b 1', 'b MID', 'b LAST', 'b LEN', 'b LEN1', 'b x', 'h', 'zzz', '', 'exit']
 D7 = ['n', 'p', 'r', 's', 'b', 'b 1', 'b LEN']
+D8 = D7 + ['b MID']
 D18 = D15 + ['next', 'previous', 'state']
 
 
@@ -458,7 +459,7 @@ def run_c11(tier):
             paths, cut = all_paths(prog, D7, plan_d7[name])
             scripts.update(paths)
             info[name]['all_paths_D7'] = {'depth': plan_d7[name], 'scripts': len(paths)}
-        maximal, ns, nt, cd, capped = bfs_paths(prog, D7, bfs_depth, bfs_states)
+        maximal, ns, nt, cd, capped = bfs_paths(prog, D8, bfs_depth, bfs_states)
         scripts.update(maximal)
         nstates += ns
         ntrans += nt
@@ -478,7 +479,7 @@ def run_c11(tier):
                 'states merged on (history, breakpoints), every transition replayed along a shortest script. Every script is '
                 'run on the real `debug::run` (stdin script, EOF at the end) and the transcript compared event by event.',
         'scope': {'programs': {n: t if len(t) < 120 else t[:60] + '…' for n, t in PROGRAMS}, 'per_program': info,
-                  'commands': D15, 'bfs_commands': D7},
+                  'commands': D15, 'bfs_commands': D8},
         'distinct_outcomes': sorted(st.sets.get('status', ())),
         'samples': [['n', 's', 'b 3', 'b', 'r', 's', 'p', 'p'], ['b 2', 'b', 'r'], ['r', 'p', 'n', 'n']],
     }
